@@ -45,6 +45,20 @@ def _rel(a, b):
 
 
 # ------------------------------------------------------------------------------------------------ ISA
+_PREFS = st.one_of(st.none(), st.fixed_dictionaries({"temperature": st.sampled_from(ref.UNITS_BY_DIM["temperature"]),
+                                                      "pressure": st.sampled_from(ref.UNITS_BY_DIM["pressure"]),
+                                                      "distance": st.sampled_from(["Foot", "Meter", "Yard", "Kilometer"]),
+                                                      "velocity": st.sampled_from(ref.UNITS_BY_DIM["velocity"])}))
+
+
+def _prefs(r, case):
+    """the preferred units in force while the station is built from explicit quantities: they must not matter"""
+    if case.get("prefs"):
+        for slot, un in case["prefs"].items():
+            setattr(pb.PreferredUnits, slot, Unit[un])
+        r.label("preferred-units-changed")
+
+
 @st.composite
 def _isa_case(draw):
     a0 = draw(_alt())
@@ -61,13 +75,14 @@ def _isa_case(draw):
     return {"a0": a0, "h": h, "unit": draw(st.sampled_from(ref.UNITS_BY_DIM["distance"])),
             # history: the same bare number under two preferred distance units, one after the other
             "bare": draw(st.one_of(st.none(), st.floats(-400.0, 10000.0))),
-            "bare_units": draw(st.permutations(["Foot", "Yard", "Meter"]))[:2]}
+            "bare_units": draw(st.permutations(["Foot", "Yard", "Meter"]))[:2], "prefs": draw(_PREFS)}
 
 
 def check_isa(case):
     r = Res()
     a0, h = case["a0"], case["h"]
     u = Unit[case["unit"]]
+    _prefs(r, case)
     # 1. standard atmosphere at h (altitude given in any distance unit)
     at = pb.Atmo.icao(u(pb.Distance.Foot(h) >> u))
     t, p, rho, a = ref.isa(h * FT)
@@ -146,12 +161,14 @@ def _mk(s, hum=None):
 def _shortcut_case(draw):
     s = draw(_station())
     return {"station": s, "d": draw(st.one_of(st.floats(-60.0, 60.0),
-                                              st.sampled_from([29.999, 30.0, 30.001, -29.999, -30.0, -30.001, 0.0, 1e-9])))}
+                                              st.sampled_from([29.999, 30.0, 30.001, -29.999, -30.0, -30.001, 0.0, 1e-9]))),
+            "prefs": draw(_PREFS)}
 
 
 def check_shortcut(case):
     r = Res()
     s, d = case["station"], case["d"]
+    _prefs(r, case)
     at = _mk(s)
     d0, m0 = at.density_ratio, at.mach >> pb.Velocity.FPS
     own = at.get_density_factor_and_mach_for_altitude(s["alt"])
